@@ -79,6 +79,13 @@ func RunCheck(s *CheckSpec) int {
 		lt := time.Now()
 		v, n, err := RunLeg(id, s.Seed, leg, deadline, total)
 		if err != nil {
+			if len(all) > 0 {
+				// an earlier leg already found violations: report those; the trouble in
+				// this leg (e.g. the code under test spawns goroutines of its own and
+				// wedges the cooperative schedule) must not hide them
+				fmt.Printf("NOTE: leg %s ended with infrastructure trouble after an earlier leg had found violations; reporting those (%.300s)\n", leg.Name, err.Error())
+				break
+			}
 			fmt.Fprintf(os.Stderr, "verifsim: INFRASTRUCTURE: %v\n", err)
 			return 2
 		}
